@@ -204,6 +204,23 @@ Proof.
   repeat constructor. cbn. vm_compute. intuition discriminate.
 Qed.
 
+Theorem prank_trace_refuted :
+  exists this sender origin ops,
+    Forall target_ok ops /\
+    m_run [m_fresh this sender origin] ops <> s_run [s_fresh this sender origin] ops.
+Proof.
+  exists 1, 2, 3, [OPrank 7; OCheat CConsole; OCall KCall 9].
+  destruct prank_trace_console_witness as (H1 & H2 & H3).
+  split; [exact H1|]. rewrite H2, H3. discriminate.
+Qed.
+
+Theorem prank_exempt_incomplete : exists a, In a cheatcode_addresses /\ ~ In a prank_exempt.
+Proof.
+  exists console_address. split.
+  - apply mem_addr_In. vm_compute. reflexivity.
+  - intros H. apply mem_addr_In in H. vm_compute in H. discriminate.
+Qed.
+
 (* ---------------------------------------------------------------- reject *)
 Definition is_prank_op (o : op) : bool :=
   match o with OPrank _ | OPrank2 _ _ | OStartPrank _ | OStartPrank2 _ _ => true | _ => false end.
